@@ -11,7 +11,7 @@ use std::error::Error;
 fn sink<T: std::fmt::Debug>(v: &T) -> usize {
     let plain = format!("{:?}", v).len();
     // the pretty and the padded form as well, unless the value is huge (a 100 KB header prints to megabytes)
-    if plain <= 4096 {
+    if plain <= 200 {
         plain + format!("{:#?}", v).len().min(1) + format!("{:40?}", v).len().min(1)
     } else {
         plain
